@@ -186,9 +186,43 @@ func truncInt(v int64, t types.Type) int64 {
 	return v
 }
 
+func isUnsigned(t types.Type) bool {
+	b, ok := t.Underlying().(*types.Basic)
+	return ok && b.Info()&types.IsUnsigned != 0
+}
+
 func foldBinOp(op token.Token, a, b pval, t types.Type) (pval, bool) {
 	if a.isBool != b.isBool {
 		return pval{}, false
+	}
+	if !a.isBool && isUnsigned(t) {
+		// unsigned operands (uint(c-'a') < 26): order and division on the unsigned value
+		ua, ub := uint64(a.i), uint64(b.i)
+		switch op {
+		case token.LSS:
+			return pval{isBool: true, b: ua < ub}, true
+		case token.LEQ:
+			return pval{isBool: true, b: ua <= ub}, true
+		case token.GTR:
+			return pval{isBool: true, b: ua > ub}, true
+		case token.GEQ:
+			return pval{isBool: true, b: ua >= ub}, true
+		case token.QUO:
+			if ub == 0 {
+				return pval{}, false
+			}
+			return pval{i: truncInt(int64(ua/ub), t)}, true
+		case token.REM:
+			if ub == 0 {
+				return pval{}, false
+			}
+			return pval{i: truncInt(int64(ua%ub), t)}, true
+		case token.SHR:
+			if ub > 63 {
+				return pval{}, false
+			}
+			return pval{i: truncInt(int64(ua>>ub), t)}, true
+		}
 	}
 	if a.isBool {
 		switch op {
